@@ -55,6 +55,7 @@ func TestVerif(t *testing.T) {
 			if hw != nil {
 				hw.WriteString(h.JSON())
 				hw.WriteByte('\n')
+				hw.Flush()
 			}
 			runOne(h)
 		}
